@@ -123,6 +123,11 @@ def check_svd(case):
             # the near-repeated class (relative gap < 0.05) that known finding KF-C05-2 covers
             out.le(site + ":A = U S V^H", ref.fro(A - rec), C_REC * (m + n) * U_ * an * amp_rec + 1e-300 * (an == 0),
                    tags=rec_tags)
+            if c["near"] and not c["rep"]:
+                # inside the known-finding class KF-C05-2 the error follows u*||A||*sigma_1/gap; far beyond that law it is
+                # a different defect (no exemption for this site)
+                out.le(site + ":A = U S V^H up to the u*sigma_1/gap law", ref.fro(A - rec),
+                       C_REC * (m + n) * U_ * an * amp + 1e-300 * (an == 0), f"sigma_1/gap={amp:.2e}", tags=())
     # ---- truncated decomposition
     ok, r = out.call("classical_qsvd", L.qsvd.classical_qsvd, Aq, R)
     if ok:
